@@ -27,7 +27,8 @@ RULE = ("ENUMERATED matrix: every raw type (10 numeric x 27 scalings: none, Line
         "unless raw), empty results included, and a full read has len(channel) elements. Non-trivial: scaled channel, empty "
         "result, or non-float64 raw type."
         ' Windows and slices are judged again right after each integer index, and full reads, windows and slices must '
-        'be NumPy arrays (not lists).')
+        'be NumPy arrays (not lists).'
+        ' A twin-file job requires every full read (both channel orders) to have len(channel) elements.')
 ASSUMPTIONS = [
     "dtype equality is up to byte order (in-memory byte order of a chunk is representation, not type)",
     "with raw_timestamps=True timestamp channels are only required to yield TimestampArray for non-empty results",
